@@ -334,6 +334,45 @@ type scope struct {
 	// group: the rows of the current group when a grouped / aggregated select list is evaluated; plain columns then
 	// resolve against the first row (binds), aggregate functions range over all of them
 	group []joinedRow
+	// win: the values of the window functions of the select list for the current row
+	win map[*eWindow]Val
+}
+
+// windowsOf collects the window-function nodes of an expression.
+func windowsOf(e sqlExpr, out *[]*eWindow) {
+	switch n := e.(type) {
+	case *eWindow:
+		*out = append(*out, n)
+	case *eFunc:
+		for _, a := range n.args {
+			windowsOf(a, out)
+		}
+	case *eBin:
+		windowsOf(n.l, out)
+		windowsOf(n.r, out)
+	case *eCast:
+		windowsOf(n.x, out)
+	case *eField:
+		windowsOf(n.x, out)
+	case *eNot:
+		windowsOf(n.x, out)
+	case *eNeg:
+		windowsOf(n.x, out)
+	case *eIsNull:
+		windowsOf(n.x, out)
+	case *eRow:
+		for _, a := range n.items {
+			windowsOf(a, out)
+		}
+	case *eCase:
+		for _, w := range n.whens {
+			windowsOf(w[0], out)
+			windowsOf(w[1], out)
+		}
+		if n.els != nil {
+			windowsOf(n.els, out)
+		}
+	}
 }
 
 // rowVal is the value of a row constructor (a, b, ...) before it is cast to a composite type.
@@ -731,6 +770,16 @@ func (x *sqlExec) eval(e sqlExpr, sc *scope) (Val, error) {
 			return x.evalAggregate(n, sc)
 		}
 		return x.evalFunc(n, sc)
+	case *eWindow:
+		for c := sc; c != nil; c = c.outer {
+			if v, ok := c.win[n]; ok {
+				return v, nil
+			}
+			if c.win != nil {
+				break
+			}
+		}
+		return nil, unsupported("window function outside a select list")
 	case *eRow:
 		rv := rowVal{}
 		for _, it := range n.items {
